@@ -31,7 +31,7 @@ def cases(tier, seed):
     rng = np.random.default_rng([19, seed])
     n = 400 if tier == "quick" else 300000
     return [{"s": int(rng.integers(1 << 30)), "shape": ["tree", "rings", "assembly", "metal", "union"][j % 5],
-             "types": ["pool", "table", "tiny"][(j // 5) % 3], "exclude": ["none", "random", "fragment"][(j // 15) % 3]} for j in range(n)]
+             "types": ["pool", "table", "tiny", "siblings"][(j // 5) % 4], "exclude": ["none", "random", "fragment"][(j // 15) % 3]} for j in range(n)]
 
 
 def has_triangle(adj, a, b):
@@ -196,6 +196,13 @@ def run_case(case, ctx):
         # Du and Lw6+3 name no element of the mass table: they cannot be retyped and are left out (stated assumption)
         keys = [k for k in UFF4MOF if k[0:2].replace("_", "") in ATOMIC_MASSES]
         utypes = [keys[int(i)] for i in rng.integers(0, len(keys), n)]
+    elif case["types"] == "siblings":
+        # five-character labels that differ from a sibling only in their last character(s) (oxidation state, geometry suffix),
+        # bonded to one another: mixed-valence nodes and the like
+        sib = [["S_3+2", "S_3+4", "S_3+6"], ["Fe6+2", "Fe6+3"], ["Mn6+2", "Mn6+3"], ["O_3_z", "O_3_M", "O_3_f"], ["P_3+3", "P_3+5", "P_3+q"], ["W_3+4", "W_3+6"], ["Cu4+2"], ["Zr8f4"]]
+        fam = [sib[int(i)] for i in rng.choice(len(sib), size=3, replace=False)]
+        pool = [t for f in fam for t in f]
+        utypes = [pool[int(i)] for i in rng.integers(0, len(pool), n)]
     elif case["types"] == "tiny":
         pool = [POOL[int(i)] for i in rng.choice(len(POOL), size=2, replace=False)]
         utypes = [pool[int(i)] for i in rng.integers(0, 2, n)]
@@ -430,7 +437,7 @@ def requirements(stats, tier):
         need.append("graphs whose bond list is an int32/int16/uint32 array: %d" % stats.get("graphs_whose_bond_list_is_an_index_array_of_another_integer_width"))
     if stats.get("graphs_with_an_atom_of_nine_or_more_neighbours") < (10 if tier == "quick" else 1000):
         need.append("graphs with an atom of nine or more neighbours: %d" % stats.get("graphs_with_an_atom_of_nine_or_more_neighbours"))
-    if stats.nseen("shape") < 5 or stats.nseen("type_source") < 3 or stats.nseen("exclude_class") < 3:
+    if stats.nseen("shape") < 5 or stats.nseen("type_source") < 4 or stats.nseen("exclude_class") < 3:
         need.append("not all graph / type / exclusion classes observed")
     if stats.get("graphs_with_rings") < 20 or stats.get("graphs_with_high_degree_node") < 20:
         need.append("too few graphs with rings / high-degree nodes")
